@@ -212,8 +212,9 @@ def expected_pipeline(p):
 
 
 MODE_PALETTES = {
-    "exposure": ["null", "list", "scalar", "nparray", "arange", "linspace", "file", "file-row", "file-line", "outputs"],
-    "observation": ["product-lists", "product-numpy", "sequential", "disabled-step", "dask"],
+    "exposure": ["null", "list", "scalar", "nparray", "arange", "linspace", "tiny", "file", "file-row", "file-line",
+                 "outputs"],
+    "observation": ["product-lists", "product-numpy", "product-numpy-fine", "sequential", "disabled-step", "dask"],
     "calibration": ["one-parameter", "vector-parameter", "readout"],
 }
 
@@ -227,10 +228,12 @@ def mode_desc(mode, pal, tmp):
                    "nparray": {"times": "numpy.array([0.5, 1, 2])", "non_destructive": True},
                    "arange": {"times": "numpy.arange(1, 4)", "start_time": 0.5},
                    "linspace": {"times": "numpy.linspace(1, 3, 3)", "start_time": 0.25, "non_destructive": True},
+                   "tiny": {"times": "numpy.linspace(1e-13, 5e-13, 5)"},
                    "outputs": {"times": [1.0, 2.0]}}.get(pal)
         times = {"list": [1.0, 2.0, 4.0], "scalar": [2.5], "nparray": [0.5, 1.0, 2.0], "arange": [1.0, 2.0, 3.0],
                  "linspace": [1.0, 2.0, 3.0], "outputs": [1.0, 2.0], "null": [1.0], "file": [1.0, 3.0],
-                 "file-row": [1.0, 3.0, 4.5], "file-line": [1.0, 2.5, 4.0, 8.0]}[pal]
+                 "file-row": [1.0, 3.0, 4.5], "file-line": [1.0, 2.5, 4.0, 8.0],
+                 "tiny": np.linspace(1e-13, 5e-13, 5).tolist()}[pal]
         if pal == "file":
             path = os.path.join(tmp, "times.npy")
             np.save(path, np.array([1.0, 3.0]))
@@ -267,6 +270,11 @@ def mode_desc(mode, pal, tmp):
             params = [{"key": k1, "values": "numpy.arange(1, 4)"}, {"key": k3, "values": "numpy.linspace(0, 1, 3)"}]
             vals = [[1, 2, 3], [0.0, 0.5, 1.0]]
             doc = {"mode": "product", "parameters": params, "readout": {"times": [1.0, 2.0]}, "pipeline_seed": 5}
+        elif pal == "product-numpy-fine":
+            # expressions whose values need all 17 significant digits / are tiny in magnitude
+            params = [{"key": k1, "values": "numpy.logspace(-14, -12, 3)"}, {"key": k3, "values": "numpy.linspace(0, 1, 7)"}]
+            vals = [np.logspace(-14, -12, 3).tolist(), np.linspace(0, 1, 7).tolist()]
+            doc = {"mode": "product", "parameters": params}
         elif pal == "sequential":
             params = [{"key": k1, "values": [1, 2]}, {"key": k3, "values": "numpy.array([3.5, 4.5, 5.5])"}]
             vals = [[1, 2], [3.5, 4.5, 5.5]]
@@ -484,9 +492,22 @@ def build_mode(mode, doc, exp):
 
 # ================================================================== part doc
 
-def yaml_text(docdict):
+def _reversed_keys(obj, depth=0):
+    """the same document with the keys of every nested mapping written in reverse order (YAML mappings are unordered);
+    the top level and the model lists keep their order (group / model order is the subject of C01)"""
+    if isinstance(obj, dict):
+        items = [(k, _reversed_keys(v, depth + 1)) for k, v in obj.items()]
+        return dict(items[::-1] if depth >= 1 else items)
+    if isinstance(obj, list):
+        return [_reversed_keys(v, depth + 1) for v in obj]
+    return obj
+
+
+def yaml_text(docdict, korder="asis"):
     import yaml
 
+    if korder == "rev":
+        docdict = _reversed_keys(docdict)
     return yaml.safe_dump(docdict, sort_keys=False, default_flow_style=None)
 
 
@@ -539,7 +560,8 @@ def run_doc(case):
 
     kind, dpal, mode, mpal = case["det"], case["detpal"], case["mode"], case["modepal"]
     viol, seen = [], set()
-    tag = f"{kind}/{dpal} {mode}/{mpal}" + (f" pipeline={case['pipe']}" if case.get("pipe", "sparse") != "sparse" else "")
+    tag = f"{kind}/{dpal} {mode}/{mpal}" + (f" pipeline={case['pipe']}" if case.get("pipe", "sparse") != "sparse" else "") \
+        + (" keys-reversed" if case.get("korder") == "rev" else "")
 
     def bad(code, where, what):
         key = {"part": "doc", "code": code, "where": where, "mode": mode}
@@ -561,7 +583,7 @@ def run_doc(case):
                     "mode": mexp}
         docdict = {mode: mdoc, f"{kind}_detector": {"geometry": geo, "environment": env, "characteristics": cha},
                    "pipeline": pdesc}
-        text = yaml_text(docdict)
+        text = yaml_text(docdict, case.get("korder", "asis"))
         try:
             # an earlier load of the SAME document whose objects the user then changed: the load under test must not see
             # any of that (no object may be shared between two loads)
@@ -1040,6 +1062,9 @@ def enumerate_cases(tier, seed):
                     else:
                         run = True
                     cases.append({"part": "doc", "det": kind, "detpal": dpal, "mode": mode, "modepal": mpal, "run": run})
+                    # the same document with every nested mapping written in reverse key order (settings only)
+                    cases.append({"part": "doc", "det": kind, "detpal": dpal, "mode": mode, "modepal": mpal, "run": False,
+                                  "korder": "rev"})
                     if thorough:
                         cases.append({"part": "doc", "det": kind, "detpal": dpal, "mode": mode, "modepal": mpal,
                                       "run": mode != "calibration", "pipe": "dense"})
@@ -1066,6 +1091,7 @@ def enumerate_cases(tier, seed):
 
 def expected_size(tier, seed):
     n_doc = len(DET_KEYS) * len(DET_PALETTES) * sum(len(v) for v in MODE_PALETTES.values())
+    n_rev = n_doc
     from math import comb
 
     n_pres = 0
@@ -1076,7 +1102,7 @@ def expected_size(tier, seed):
     n_range = sum(len(r[8]) for r in TABLE) * (len(PATHS) + (len(THOROUGH_PATHS) if tier == "thorough" else 0))
     if tier == "thorough":
         n_doc *= len(PIPE_PALETTES)
-    return n_doc + n_pres + n_range + len(RO_TIMES) * 4
+    return n_doc + n_rev + n_pres + n_range + len(RO_TIMES) * 4
 
 
 def run_case(case):
